@@ -17,17 +17,29 @@ RULE = ('every statement form x {filter, event, inbox, console} x {marker probe,
         'native callbacks}; every UNSAFE live function as callback of every callback-taking safe Array method through GetFilterTargets '
         '(without and with a permission filter) and event filters; every live type as constructor; every no_user_view field of every '
         'type with a live object, dotted and as bare identifier after `using <object>`; hidden globals. '
+        'PURITY: every function registered side-effect-free x every argument position and `this` x 28 live shared containers/objects (unsorted / '
+        'duplicate / nested / empty / length-1 arrays, arrays of dictionaries and of arrays, dictionaries, namespaces, config objects, a type, a '
+        'function, a reference, as attributes of the Host - vars.*, groups - and as globals) x fillers for the other positions, every '
+        'callback-taking method x native callbacks (incl. union/intersection applied to the elements), in filter/console/event/inbox mode under '
+        'deep snapshots (any difference = changed:call:<name>). HIDDEN VIA NATIVES: every side-effect-free function x every position x {ApiUser '
+        'object, reference to .password/.password_hash, containers of them}: result handed back through the console (raw and JSON) or compared '
+        'with the secret inside filter/event filters. '
         'marker probe = the sub-expression that is evaluated right after the sandbox test is a call of `sbmark()`, a function the harness registers '
         'side-effect-free and that sets a flag, so "marker reached" vs "stopped before" is read from that flag, never from error text. non-trivial = the probe reached the '
         'interpreter (compiled) and produced a verdict or executed; distinct = distinct probe text')
 TRUSTED = ['model: coq/Sandbox/SbModel.v (effect-level semantics, one constructor per Expression subclass; the values computed by '
-           'operators and pure builtins are inputs); the model\'s own classification pure/mutating/higher-order of every builtin (sb_pure_names)',
+           'operators and pure builtins are inputs); whether a native may write what its receiver/arguments reach comes from the regenerated '
+           'mutation-capability facts (f_sb_purity), the hand-written lists sb_pure_names/sb_higher_names are only the EXPECTED table',
+           'tools/c19_purity.py: token-level, flow-insensitive alias analysis of the C++ bodies of registered functions; trusted tables READ_METHODS '
+           '(cross-checked: declared const in the headers, own bodies analysed), PURE_CALLEES (by name: Utility::Match, JsonEncode, Array::FromSet, '
+           'ConfigItem::GetItems, std:: algorithms, ...), FRESH_METHODS; declarations recognised syntactically; macros not expanded; implicit '
+           'conversions (Value -> String) not seen; self-test of 5 pure and 19 mutating idioms on every run',
            'source facts re-extracted each run by tools/facts_c19.py (regular expressions over expression.cpp, vmops.hpp, *-script.cpp, '
            'REGISTER_*FUNCTION, *.ti, object.cpp, reference.cpp, scriptframe.cpp, filterutility/eventqueue/consolehandler.cpp) -> coq/Facts/Facts_c19.v',
            'harness/ops_sb.cpp: deep snapshot (global namespace recursively, all fields of all config objects, config item registry, '
            'apply rules, type prototypes, scratch directory listing+SHA1, console session locals)']
-ASSUMPTIONS = ['native functions registered side-effect-free behave as the model classifies them (pure): established only behaviourally, '
-               'by executing each of them in sandboxed frames with snapshots',
+ASSUMPTIONS = ['native functions registered side-effect-free are pure: established by the source analysis (sound only relative to its trusted '
+               'tables, see TRUSTED) and behaviourally by executing each of them with live shared containers in every position under snapshots',
                'termination / resource use of sandboxed code is not part of C19 (While/For guards are recorded as facts only)',
                'the process environment (getenv) and the clock are not "attributes hidden from API users"']
 
@@ -135,6 +147,183 @@ RECV = {
     'Function': [('fn', 'Function', 'regex')], 'Type': [('type', 'Type', 'Host')], 'Reference': [('ref', 'Reference', '(&SbArr)')],
     'DateTime': [('lit', 'DateTime', 'DateTime()')],
 }
+
+# ---------------------------------------------------------------- purity probes (every safe function x every position)
+# live shared containers / objects: (tag, dynamic type, expression).  `@H` is `host` in filter mode (the variable
+# FilterUtility binds) and get_object(Host, "sbh") elsewhere.
+POOL = [
+    ('hostvar-unsorted-strs', 'Array', '@H.vars.boot_order'), ('host-groups', 'Array', '@H.groups'),
+    ('global-unsorted-strs', 'Array', 'SbArrU'), ('global-unsorted-nums', 'Array', 'SbArr'),
+    ('hostvar-dups', 'Array', '@H.vars.dups'), ('global-dups', 'Array', 'SbDup'),
+    ('hostvar-nested-list', 'Array', '@H.vars.nested.inner.list'), ('global-nested-list', 'Array', 'SbNest.list'),
+    ('hostvar-array-of-dicts', 'Array', '@H.vars.dicts'), ('global-array-of-dicts', 'Array', 'SbDicts'),
+    ('hostvar-array-of-arrays', 'Array', '@H.vars.aoa'), ('global-array-of-arrays', 'Array', 'SbAoa'),
+    ('hostvar-empty-array', 'Array', '@H.vars.empty_arr'), ('hostvar-len1-array', 'Array', '@H.vars.one'),
+    ('hostvar-dup-strs', 'Array', '@H.vars.strs'),
+    ('host-vars', 'Dictionary', '@H.vars'), ('hostvar-nested-dict', 'Dictionary', '@H.vars.nested'),
+    ('global-dict', 'Dictionary', 'SbDict'), ('global-nested-dict', 'Dictionary', 'SbNest'),
+    ('hostvar-empty-dict', 'Dictionary', '@H.vars.empty_dict'),
+    ('globals', 'Namespace', 'globals'), ('user-namespace', 'Namespace', 'SbNs'),
+    ('host-object', 'Host', '@H'), ('apiuser-object', 'ApiUser', 'get_object(ApiUser, "sbu")'),
+    ('type', 'Type', 'Host'), ('function', 'Function', 'regex'), ('reference', 'Reference', '(&SbArrU)'),
+    ('live-string', 'String', '@H.name'),
+]
+# what the other positions hold while one position holds a live container
+FILLERS = ['[ 2, 1 ]', '"a"', '1', '@SAME']
+# native callbacks for sort/map/reduce/filter/any/all (script lambdas are not side-effect-free, so they are refused)
+CB1 = ['string', 'bool', 'len', 'typeof', 'keys', 'Json.encode', 'number', 'get_objects', 'union', 'intersection']
+CB2 = ['match', 'Math.max', 'Math.min', 'union', 'intersection', 'regex', 'cidr_match', 'Math.pow']
+RECV_BY_TYPE = {'Array': ['Array'], 'Dictionary': ['Dictionary'], 'Namespace': ['Namespace'], 'String': ['String'],
+                'Object': ['Array', 'Dictionary', 'Namespace', 'Host', 'ApiUser', 'ApiListener', 'Type', 'Function', 'Reference', 'String'],
+                'Reference': ['Reference'], 'Number': [], 'Boolean': []}
+LIT_RECV = {'String': ['"b,a c"', '""'], 'Number': ['(42)'], 'Boolean': ['true'], 'Array': ['[ 3, 1, 2 ]'], 'Dictionary': ['{ b = 1, a = 2 }']}
+PURITY_MODES = ['filter', 'console', 'filter', 'console', 'event', 'console', 'filter', 'inbox']
+
+
+def split_top(al):
+    out, depth, cur = [], 0, ''
+    for ch in al:
+        if ch in '([{':
+            depth += 1
+        elif ch in ')]}':
+            depth -= 1
+        if ch == ',' and depth == 0:
+            out.append(cur.strip())
+            cur = ''
+        else:
+            cur += ch
+    if cur.strip():
+        out.append(cur.strip())
+    return out
+
+
+def purity_probes(fn, rnd, tier, fns):
+    """every argument position (and `this`) of one function registered side-effect-free gets every live shared container
+    -> list of (mode, code-template, description tokens)"""
+    name, path = fn['name'], fn['path']
+    declared = [x for x in fn['args'].split(',') if x]
+    k = len(declared)
+    is_cb = any(a in declared for a in ('func', 'less_cmp', 'reduce', 'callback', 'cmp'))
+    out = []
+    if path.startswith('@'):
+        ty, key = path[1:].split('.', 1)
+        recvs = [(t, x, 'shared') for (_, t, x) in POOL if t in RECV_BY_TYPE.get(ty, [])] + [(ty, x, 'lit') for x in LIT_RECV.get(ty, [])]
+        if ty == 'Object':
+            recvs += [('Number', '(42)', 'lit'), ('Boolean', 'true', 'lit')]
+    else:
+        ty, key, recvs = None, '-', [(None, None, 'none')]
+    arities = sorted({k, max(0, k - 1)}) if k else [0, 1, 2, 3]
+    known = [split_top(al) for al in ARGS.get(name, []) if al not in CALLBACKS]
+    for rty, rx, rk in recvs:
+        callee = '%s.%s' % (rx, key) if rx else path
+        base = 'kind=call fn=%s recv=%s rty=%s key=%s lsafe=1' % (hx(name), rk, hx(rty or '-'), hx(key))
+        if is_cb:
+            # callback-taking method: every native callback of the fitting arity; the receiver is the live container
+            cbs = CB2 if key in ('sort', 'reduce') else CB1
+            for cbx in cbs + ([''] if key == 'sort' else []):
+                cbn = [f['name'] for f in fns if f['path'] == cbx]
+                out.append(('%s(%s)' % (callee, cbx), base + (' cb=native cbn=%s' % hx(cbn[0]) if cbn else ' cb=none nargs=0') +
+                            ' shpos=%s' % ('s' if rk == 'shared' else '-')))
+            continue
+        for n in arities:
+            if n == 0:
+                if rk != 'none':
+                    out.append(('%s()' % callee, base + ' cb=none nargs=0 shpos=%s' % ('s' if rk == 'shared' else '-')))
+                continue
+            fills = list(FILLERS)
+            for kn in known:
+                if len(kn) == n:
+                    fills.append(kn)
+            for p in range(n):
+                for (_, xt, xx) in POOL:
+                    for fl in (fills if n > 1 else fills[:1]):
+                        if isinstance(fl, list):
+                            args = list(fl)
+                        else:
+                            args = [xx if fl == '@SAME' else fl] * n
+                        args[p] = xx
+                        sh = ','.join(str(q) for q in range(n) if args[q] == xx)
+                        out.append(('%s(%s)' % (callee, ', '.join(args)),
+                                    base + ' cb=none nargs=%d shpos=%s%s' % (n, 's,' if rk == 'shared' else '', sh)))
+    # quick tier: bound the population per function, keeping every (receiver, position, container) at least once
+    seen, uniq = set(), []
+    for code, desc in out:
+        if code not in seen:
+            seen.add(code)
+            uniq.append((code, desc))
+    cap = 420 if tier == 'quick' else 100000
+    if len(uniq) > cap:
+        rnd.shuffle(uniq)
+        uniq = uniq[:cap]
+    res = []
+    for i, (code, desc) in enumerate(uniq):
+        mode = PURITY_MODES[(i + rnd.randrange(8)) % 8]
+        code = code.replace('@H', 'host' if mode == 'filter' else HOST)
+        res.append((mode, code + '\n0', desc + ' restore=1'))
+    return res
+
+
+# ---------------------------------------------------------------- hidden reads through natives
+USER = 'get_object(ApiUser, "sbu")'
+SECRET_ARGS = [('ApiUser', USER), ('Reference', '(&%s.password)' % USER), ('Array', '[ %s ]' % USER),
+               ('Dictionary', '{ u = %s }' % USER), ('Array', '[ &%s.password ]' % USER), ('Array', 'get_objects(ApiUser)'),
+               ('Reference', '(&%s.password_hash)' % USER),
+               ('ApiListener', 'get_object(ApiListener, "sbapi")'), ('Reference', '(&get_object(ApiListener, "sbapi").ticket_salt)'),
+               ('Array', '[ &get_object(ApiListener, "sbapi").ticket_salt, get_object(ApiListener, "sbapi") ]')]
+SECRET_PAT = '"*sbS*"'          # matches the password (sbSECRETpw) and the ticket salt field (sbSALTfld)
+
+
+def hidden_native_probes(fn, rnd, tier, fns):
+    """every side-effect-free function gets the object that owns a no_user_view field (ApiUser.password), a reference to that
+    field, and containers of both, in every argument position and as receiver; what comes back is (a) returned through the
+    console, raw and JSON-encoded, (b) compared with the secret inside filter / event filters -> (mode, code, desc, leak)"""
+    name, path = fn['name'], fn['path']
+    declared = [x for x in fn['args'].split(',') if x]
+    k = len(declared)
+    is_cb = any(a in declared for a in ('func', 'less_cmp', 'reduce', 'callback', 'cmp'))
+    calls = []
+    if path.startswith('@'):
+        ty, key = path[1:].split('.', 1)
+        ok_types = RECV_BY_TYPE.get(ty, [])
+        recvs = [(t, x) for (t, x) in SECRET_ARGS if t in ok_types]
+    else:
+        ty, key, recvs = None, '-', [(None, None)]
+    arities = sorted({k, max(0, k - 1)}) if k else [1, 2]
+    for rty, rx in recvs:
+        callee = '%s.%s' % (rx, key) if rx else path
+        base = 'kind=call fn=%s recv=%s rty=%s key=%s lsafe=1' % (hx(name), 'shared' if rx else 'none', hx(rty or '-'), hx(key))
+        if is_cb:
+            for cbx in (CB2 if key in ('sort', 'reduce') else CB1) + ([''] if key == 'sort' else []):
+                cbn = [f['name'] for f in fns if f['path'] == cbx]
+                calls.append(('%s(%s)' % (callee, cbx), base + (' cb=native cbn=%s' % hx(cbn[0]) if cbn else ' cb=none nargs=0')))
+            continue
+        for n in arities:
+            if n == 0:
+                if rx:
+                    calls.append(('%s()' % callee, base + ' cb=none nargs=0'))
+                continue
+            for p in range(n):
+                for (_, sx) in SECRET_ARGS:
+                    for fl in (['"*"', '1'] if n > 1 else ['1']):
+                        args = [fl] * n
+                        args[p] = sx
+                        calls.append(('%s(%s)' % (callee, ', '.join(args)), base + ' cb=none nargs=%d' % n))
+    out, seen = [], set()
+    for i, (call, desc) in enumerate(calls):
+        if call in seen:
+            continue
+        seen.add(call)
+        form = (i + rnd.randrange(4)) % 4 if tier == 'quick' else -1
+        if form in (0, -1):
+            out.append(('console', call, desc, 0))
+        if form in (1, -1):
+            out.append(('console', 'Json.encode(%s)' % call, desc, 0))
+        if form in (2, -1):
+            out.append(('filter', 'match(%s, Json.encode(%s))' % (SECRET_PAT, call), desc, 1))
+        if form in (3, -1):
+            out.append((('event', 'filter', 'inbox')[i % 3], '(%s) in [ "sbSECRETpw", "sbSALTfld" ]' % call, desc, 1))
+    return out
+
 
 _enum_cache = {}
 
@@ -248,6 +437,26 @@ def generate(seed, tier):
         rnd.shuffle(ps)
         lines = [probe(i + 1, mode, marker, code, desc) for i, (mode, marker, code, desc) in enumerate(ps)]
         add(lines, 'function-call', fn=fn['name'], safe=fn['safe'])
+    # 2c. PURITY: every function registered side-effect-free x every argument position (and `this`) x every live shared
+    #     container / object, under deep snapshots (class changed:call:<name> on any difference)
+    for fn in fns:
+        if not fn['safe']:
+            continue
+        ps = purity_probes(fn, rnd, tier, fns)
+        if not ps:
+            continue
+        for j in range(0, len(ps), 40):
+            lines = [probe(i + 1, mode, 0, code, desc) for i, (mode, code, desc) in enumerate(ps[j:j + 40])]
+            add(lines, 'purity', fn=fn['name'], safe=1)
+    # 2d. HIDDEN READS THROUGH NATIVES: every side-effect-free function x every position x {owner of a no_user_view field,
+    #     reference to the field, containers of them}; the value is handed back (console) or compared with the secret (filters)
+    for fn in fns:
+        if not fn['safe']:
+            continue
+        ps = hidden_native_probes(fn, rnd, tier, fns)
+        for j in range(0, len(ps), 40):
+            lines = [probe(i + 1, mode, 0, code, desc, leak=leak) for i, (mode, code, desc, leak) in enumerate(ps[j:j + 40])]
+            add(lines, 'hidden-via-native', fn=fn['name'], safe=1)
     # 3. every type as constructor
     lines = []
     for i, t in enumerate(types):
@@ -261,8 +470,8 @@ def generate(seed, tier):
     lines = []
     k = 0
     # what the property names explicitly is probed whether or not the live type still flags it
-    for ty, fld in (('ApiUser', 'password'),):
-        if not any(h['type'] == ty and h['field'] == fld for h in hidden):
+    for ty, fld in (('ApiUser', 'password'), ('ApiListener', 'ticket_salt')):
+        if ty in objs and not any(h['type'] == ty and h['field'] == fld for h in hidden):
             hidden = hidden + [{'type': ty, 'field': fld, 'live': 1}]
     for h in hidden:
         if not h['live'] or h['type'] not in objs:
@@ -274,11 +483,12 @@ def generate(seed, tier):
             lines.append(probe(k, mode, 1, '[ %s.%s, %s ]' % (ox, h['field'], M), desc))
         k += 1
         lines.append(probe(k, 'console', 0, '%s.%s' % (ox, h['field']), desc))
-        if h['field'] == 'password':
+        if h['field'] in ('password', 'ticket_salt'):
+            secret = 'sbSECRETpw' if h['field'] == 'password' else 'sbSALTfld'
             for mode in ('filter', 'event'):
                 k += 1
-                lines.append(probe(k, mode, 0, '%s.password == "sbSECRETpw"' % ox, desc, leak=1))
-            for code in ('(&%s.password).get()' % ox, '*(&%s.password)' % ox, 'Json.encode(%s)' % ox, 'string(%s)' % ox,
+                lines.append(probe(k, mode, 0, '%s.%s == "%s"' % (ox, h['field'], secret), desc, leak=1))
+            for code in ('(&%s.%s).get()' % (ox, h['field']), '*(&%s.%s)' % (ox, h['field']), 'Json.encode(%s)' % ox, 'string(%s)' % ox,
                          '%s.to_string()' % ox, 'keys(%s)' % ox, '%s.clone()' % ox):
                 k += 1
                 lines.append(probe(k, 'console', 0, code, desc))
@@ -298,12 +508,13 @@ def generate(seed, tier):
             lines.append(probe(k, mode, 1, 'using %s\n[ %s, %s ].len()' % (ox, h['field'], M), desc))
         k += 1
         lines.append(probe(k, 'console', 0, 'using %s\n%s' % (ox, h['field']), desc))
-        if h['field'] == 'password':
+        if h['field'] in ('password', 'ticket_salt'):
+            secret = 'sbSECRETpw' if h['field'] == 'password' else 'sbSALTfld'
             for mode in ('filter', 'filterperm', 'event'):
                 k += 1
-                lines.append(probe(k, mode, 0, 'using %s\npassword == "sbSECRETpw"' % ox, desc, leak=1))
+                lines.append(probe(k, mode, 0, 'using %s\n%s == "%s"' % (ox, h['field'], secret), desc, leak=1))
                 k += 1
-                lines.append(probe(k, mode, 0, 'using %s\nmatch("sbSECRET*", password)' % ox, desc, leak=1))
+                lines.append(probe(k, mode, 0, 'using %s\nmatch("%s*", %s)' % (ox, secret[:6], h['field']), desc, leak=1))
     # controls: `using` does resolve bare identifiers of a live object (a visible field is readable)
     for ty, fld in (('Host', 'address'), ('ApiUser', 'permissions')):
         if ty in objs:
@@ -416,6 +627,30 @@ def extra_stats(cases, impl):
                 st['live_functions'] += 1
                 if ' safe=1' in l:
                     st['live_functions_safe'] += 1
+    # purity probes: per safe function, the positions (s = this, 0.. = argument) at which a live shared container was handed in
+    # and the call returned normally in a mode where that is observable
+    pos_ok, pos_all = collections.defaultdict(set), collections.defaultdict(set)
+    for c in cases:
+        fam = c['tags'].get('family')
+        if fam not in ('purity', 'hidden-via-native'):
+            continue
+        il = [l for l in impl.get(c['id'], []) if l.startswith('sb_probe')]
+        pl = [l for l in c['lines'] if l.startswith('sb_probe')]
+        for p, l in zip(pl, il):
+            st['%s_probes' % fam.replace('-', '_')] += 1
+            ok = 'i_res=ok' in l and ' mode=event ' not in l and ' mode=inbox ' not in l
+            if ok:
+                st['%s_returned_ok' % fam.replace('-', '_')] += 1
+            if fam == 'purity':
+                sh = [t for t in p.split() if t.startswith('shpos=')]
+                for q in (sh[0][6:].split(',') if sh else []):
+                    if q and q != '-':
+                        pos_all[c['tags']['fn']].add(q)
+                        if ok:
+                            pos_ok[c['tags']['fn']].add(q)
+    st['purity_function_positions_probed'] = sum(len(v) for v in pos_all.values())
+    st['purity_function_positions_with_successful_call'] = sum(len(v) for v in pos_ok.values())
+    st['purity_functions_without_successful_call_on_live_container'] = sorted(f for f in pos_all if not pos_ok[f])
     safe_fns = {c['tags']['fn'] for c in cases if c['tags'].get('family') == 'function-call' and c['tags'].get('safe')}
     st['safe_functions'] = len(safe_fns)
     st['safe_functions_without_successful_execution'] = sorted(safe_fns - fns_ok)
